@@ -50,6 +50,67 @@ let check_C16_f32 = check_C16 freq_memo
 let split c s = if s = "" || s = "-" then [] else String.split_on_char c s
 let ints s = List.map int_of_string (split ',' s)
 
+(* ---------- floating-point replay: 64-bit conversions and the libm oracle tables ---------- *)
+let z_of_i64u (b : int64) : z =
+  if b = 0L then Z0 else begin
+    let rec go i acc =       (* bits below the leading one, most significant first *)
+      if i < 0 then acc
+      else go (i - 1) (if Int64.logand (Int64.shift_right_logical b i) 1L = 1L then XI acc else XO acc) in
+    let rec top i = if Int64.logand (Int64.shift_right_logical b i) 1L = 1L then i else top (i - 1) in
+    let t = top 63 in
+    Zpos (go (t - 1) XH)
+  end
+let i64_of_z (v : z) : int64 =
+  let rec pos = function XH -> 1L | XO p -> Int64.shift_left (pos p) 1 | XI p -> Int64.logor (Int64.shift_left (pos p) 1) 1L in
+  match v with Z0 -> 0L | Zpos p -> pos p | Zneg p -> Int64.neg (pos p)
+let f32_of_int b = F32.of_bits (z_of_int b)
+let int_of_f32 x = int_of_z (F32.to_bits x)
+let f64_of_i64 b = F64.of_bits (z_of_i64u b)
+let i64_of_f64 x = i64_of_z (F64.to_bits x)
+let float_of_f32bits b = Int32.float_of_bits (Int32.of_int b)
+let u64s s = List.map (fun t -> Int64.of_string ("0u" ^ t)) (split ',' s)
+
+(* tables input bits -> output bits of f32::log2, 2f32.powf(x), 2f64.powf(y), filled from the
+   harness' records (outputs of this platform's libm) at the inputs computed by the model; every
+   entry is re-validated: one output per input, and close to OCaml's own log2 / pow *)
+let log2tab : (int, int) Hashtbl.t = Hashtbl.create 1024
+let pow2tab : (int, int) Hashtbl.t = Hashtbl.create 1024
+let exp2tab : (int64, int64) Hashtbl.t = Hashtbl.create 1024
+let oracle_bad : string option ref = ref None
+let obad s = if !oracle_bad = None then oracle_bad := Some s
+let close32 (got : float) (want : float) =
+  (Float.is_nan got && Float.is_nan want) || got = want
+  || Float.abs (got -. want) <= 3e-7 *. Float.abs want +. 1e-44
+let close64 (got : float) (want : float) =
+  (Float.is_nan got && Float.is_nan want) || got = want
+  || Float.abs (got -. want) <= 1e-15 *. Float.abs want +. 1e-320
+let add_log2 i o =
+  (match Hashtbl.find_opt log2tab i with
+   | Some o' when o' <> o -> obad (Printf.sprintf "log2-two-outputs-for-input-%d" i)
+   | _ -> Hashtbl.replace log2tab i o);
+  if not (close32 (float_of_f32bits o) (Float.log2 (float_of_f32bits i))) then
+    obad (Printf.sprintf "log2-inaccurate in=%d out=%d" i o)
+let add_pow2 i o =
+  (match Hashtbl.find_opt pow2tab i with
+   | Some o' when o' <> o -> obad (Printf.sprintf "powf-two-outputs-for-input-%d" i)
+   | _ -> Hashtbl.replace pow2tab i o);
+  if not (close32 (float_of_f32bits o) (Float.pow 2.0 (float_of_f32bits i))) then
+    obad (Printf.sprintf "powf-inaccurate in=%d out=%d" i o)
+let add_exp2 i o =
+  (match Hashtbl.find_opt exp2tab i with
+   | Some o' when o' <> o -> obad (Printf.sprintf "exp2-two-outputs-for-input-%Ld" i)
+   | _ -> Hashtbl.replace exp2tab i o);
+  if not (close64 (Int64.float_of_bits o) (Float.pow 2.0 (Int64.float_of_bits i))) then
+    obad (Printf.sprintf "exp2-inaccurate in=%Ld out=%Ld" i o)
+let oracle_miss = ref false
+let flog2 x = match Hashtbl.find_opt log2tab (int_of_f32 x) with
+  | Some o -> f32_of_int o | None -> oracle_miss := true; f32_of_int 0x7FC00000
+let fpow2 x = match Hashtbl.find_opt pow2tab (int_of_f32 x) with
+  | Some o -> f32_of_int o | None -> oracle_miss := true; f32_of_int 0x7FC00000
+let fexp2 y = match Hashtbl.find_opt exp2tab (i64_of_f64 y) with
+  | Some o -> f64_of_i64 o | None -> oracle_miss := true; f64_of_i64 0x7FF8000000000000L
+
+
 let kv tok = match String.index_opt tok '=' with
   | Some i -> (String.sub tok 0 i, String.sub tok (i + 1) (String.length tok - i - 1))
   | None -> (tok, "")
@@ -89,9 +150,13 @@ let parse_cm s : matrix =
 type rstate = {
   n : string; cm : string; bg : string; active : int list; astarts : int list; starts : int list }
 
+(* the six state fields; further fields (r=, p=, w=, e=, q=, f=: floating-point details) follow *)
 let parse_state = function
-  | [n; cm; bg; a; ast; st] -> { n; cm; bg; active = ints a; astarts = ints ast; starts = ints st }
+  | n :: cm :: bg :: a :: ast :: st :: _ -> { n; cm; bg; active = ints a; astarts = ints ast; starts = ints st }
   | _ -> raise (Bad "bad state record")
+let extras = function
+  | _ :: _ :: _ :: _ :: _ :: _ :: ex -> List.map kv ex
+  | _ -> []
 
 let act_bits nseq (active : int list) = List.init nseq (fun i -> List.mem i active)
 
@@ -128,6 +193,7 @@ let () =
         let toks = String.split_on_char ' ' inp in
         let id = List.hd toks in
         let verdict = ref "OK" in
+        Hashtbl.reset log2tab; Hashtbl.reset pow2tab; Hashtbl.reset exp2tab; oracle_bad := None;
         (* PROPFAIL takes precedence over DIFF, first of each kind wins *)
         let propfail s = if String.length !verdict < 8 || String.sub !verdict 0 8 <> "PROPFAIL" then verdict := "PROPFAIL " ^ s in
         let diff s = if !verdict = "OK" then verdict := "DIFF " ^ s in
@@ -321,9 +387,97 @@ let () =
                                if z < 0 || z >= nseq then diff (tag ^ " hold-out-index-out-of-range")
                                else if List.length cur.starts = nseq && List.length prev.starts = nseq then begin
                                  let s_new = List.nth cur.starts z and s_old = List.nth prev.starts z in
-                                 let ch = { ch_z = nat_of_int z;
-                                            ch_upd = (if s_new = s_old then UKeep else UNew (nat_of_int s_new));
-                                            ch_accept = List.mem z cur.active } in
+                                 let zn = nat_of_int z in
+                                 let ex = extras stf in
+                                 let sz = List.nth data z in
+                                 let accept_obs = List.mem z cur.active in
+                                 (* the choice inferred from the trace alone (as before) ... *)
+                                 let ch0 = { ch_z = zn;
+                                             ch_upd = (if s_new = s_old then UKeep else UNew (nat_of_int s_new));
+                                             ch_accept = accept_obs } in
+                                 (* ... refined by the model: the support of the weights on the integer tables of
+                                    the alignment without z decides between "WeightedIndex::new failed, start
+                                    kept" and "a draw", and a draw must hit a position of non-zero weight *)
+                                 let ch1 = (match exclude_sequence c st zn with
+                                     | Ok st1 ->
+                                         let sup = support kn wn st1.st_bg st1.st_motif sz in
+                                         let alldead = List.for_all not sup in
+                                         if s_new <> s_old && (s_new >= List.length sup || not (List.nth sup s_new)) then
+                                           diff (Printf.sprintf "%s new-start-%d-has-zero-weight-in-the-model" tag s_new);
+                                         if alldead && s_new <> s_old then diff (tag ^ " start-moved-although-every-weight-is-zero");
+                                         { ch0 with ch_upd = (if alldead then UKeep else UNew (nat_of_int s_new)) }
+                                     | _ -> ch0) in
+                                 (* floating-point replay (first fl calls): PSSM, scores, weights, the draw from the
+                                    generator's word, the Zoops decision -- all computed by the extracted model *)
+                                 let ch = (match List.assoc_opt "p" ex, List.assoc_opt "w" ex, List.assoc_opt "r" ex with
+                                     | Some pcells, Some wcells, Some rword ->
+                                         (try
+                                           oracle_miss := false;
+                                           let ident32 (x : F32.t) = x and ident64 (y : F64.t) = y in
+                                           let st1 = (match exclude_sequence c st zn with Ok x -> x | _ -> raise (Bad "exclude")) in
+                                           let word = (match String.split_on_char ':' rword with
+                                               | [_; "-"] -> None
+                                               | [_; wd] -> Some (z_of_i64u (Int64.of_string ("0u" ^ wd)))
+                                               | _ -> raise (Bad "bad r=")) in
+                                           (* log2 table of one PSSM: inputs from the model (flog2 := identity), outputs from the record *)
+                                           let feed_log2 (stx : state) cells =
+                                             (match pssm_of kn ident32 stx.st_motif stx.st_bg with
+                                              | Ok (_, inm) ->
+                                                  let ins = List.concat inm and outs = ints cells in
+                                                  if List.length ins <> List.length outs then raise (Bad "pssm-shape");
+                                                  let bgl = List.map int_of_n stx.st_bg in
+                                                  List.iteri (fun i (x, o) ->
+                                                      if List.nth bgl (i mod k) = 0 then
+                                                        (if o <> 0xFF800000 then obad (Printf.sprintf "%s pssm-cell-%d-should-be-neg-inf" tag i))
+                                                      else add_log2 (int_of_f32 x) o) (List.combine ins outs);
+                                                  List.map (fun o -> f32_of_int o) outs
+                                              | _ -> raise (Bad "prepare_pssm-panics")) in
+                                           let rec chunk l = if l = [] then [] else
+                                               (List.filteri (fun i _ -> i < k) l) :: chunk (List.filteri (fun i _ -> i >= k) l) in
+                                           let m1 = chunk (feed_log2 st1 pcells) in
+                                           (* exp2 table: inputs = the model's scores as f64 / 1.0 *)
+                                           let sc = score_vec wn m1 sz in
+                                           let wins = weight_vec ident64 sc and wouts = u64s wcells in
+                                           if List.length wins <> List.length wouts then
+                                             diff (Printf.sprintf "%s weight-vector-length model %d impl %d" tag (List.length wins) (List.length wouts))
+                                           else List.iter2 (fun y o -> add_exp2 (i64_of_f64 y) o) wins wouts;
+                                           (* Zoops trial: tables for the PSSM with z included at the drawn start *)
+                                           (match List.assoc_opt "e" ex with
+                                            | Some ecells ->
+                                                List.iter2 (fun x o -> add_pow2 (int_of_f32 x) o) (List.concat m1) (ints ecells);
+                                                (match List.assoc_opt "q" ex, List.assoc_opt "f" ex with
+                                                 | Some qcells, Some fcells ->
+                                                     (match update_holdout c st1 zn ch1.ch_upd with
+                                                      | Ok st2 -> (match include_sequence c st2 zn with
+                                                          | Ok st3 ->
+                                                              let m3 = feed_log2 st3 qcells in
+                                                              List.iter2 (fun x o -> add_pow2 (int_of_f32 x) o) m3 (ints fcells)
+                                                          | _ -> ())
+                                                      | _ -> ())
+                                                 | _ -> ())
+                                            | None -> ());
+                                           (match !oracle_bad with Some b -> diff (tag ^ " libm-oracle " ^ b) | None -> ());
+                                           (* the model's own choice *)
+                                           (match choice_of flog2 fpow2 fexp2 c st zn word with
+                                            | Ok chm ->
+                                                if !oracle_miss then begin diff (tag ^ " libm-oracle-miss (model and implementation evaluate libm at different points)"); ch1 end
+                                                else begin
+                                                  (match chm.ch_upd with
+                                                   | UNew pm -> if int_of_nat pm <> s_new then
+                                                         diff (Printf.sprintf "%s draw model %d impl %d" tag (int_of_nat pm) s_new)
+                                                   | UKeep -> if s_new <> s_old then diff (tag ^ " model-keeps-the-start-implementation-moved-it")
+                                                   | UOverflow -> diff (tag ^ " model-weight-overflow"));
+                                                  let trial = zoops_eff && not (List.mem z prev.active) in
+                                                  if trial && List.mem_assoc "q" ex && chm.ch_accept <> accept_obs then
+                                                    diff (Printf.sprintf "%s zoops-decision model %b impl %b" tag chm.ch_accept accept_obs);
+                                                  if trial && List.mem_assoc "q" ex then chm else { chm with ch_accept = accept_obs }
+                                                end
+                                            | Panic _ -> ch1   (* next() will report the panic below *)
+                                            | Err e -> diff (Printf.sprintf "%s float-model-error-%d" tag (int_of_nat e)); ch1
+                                            | OutOfFuel -> diff (tag ^ " float-model-out-of-fuel"); ch1)
+                                         with Bad b -> diff (tag ^ " float-replay " ^ b); ch1
+                                            | Invalid_argument b -> diff (tag ^ " float-replay-shape " ^ b); ch1)
+                                     | _ -> ch1) in
                                  (match next c st ch with
                                   | Ok (st', Some mit) ->
                                       same_state tag st' cur;
